@@ -27,11 +27,56 @@ def _profile_global(repo):
 # OR-FINALLY
 # --------------------------------------------------------------------------
 
+def _errstate_class(repo, col, cls):
+    """errstate written as a context-manager class: __enter__ installs the
+    override and keeps the previous profile, __exit__ re-installs it on
+    every path and does not swallow the exception (returns nothing /
+    False)."""
+    rule = 'OR-FINALLY'
+    meths = {n.name: n for n in cls.body if isinstance(n, ast.FunctionDef)}
+    en, ex = meths.get('__enter__'), meths.get('__exit__')
+    if en is None or ex is None:
+        col.unknown(rule, ERR, 'errstate', 'context-manager', cls,
+                    'errstate is a class without __enter__/__exit__')
+        return
+    saves = [c for c in ast.walk(en) if isinstance(c, ast.Call) and
+             call_name(c) in ('seterr', 'geterr')]
+    col.check(bool(saves), rule, ERR, 'errstate.__enter__', 'save',
+              saves[0] if saves else en,
+              'the previous profile is taken on entry',
+              'no profile snapshot is taken on entry')
+    cfg = CFG(ex)
+    restorers = {n for n in cfg.stmt_nodes() if n.kind == 'stmt' and any(
+        isinstance(c, ast.Call) and call_name(c) == 'seterr'
+        for c in ast.walk(n.stmt))}
+    leak = cfg.path_avoiding(cfg.entry, cfg.exit, restorers)
+    col.check(bool(restorers) and not leak, rule, ERR, 'errstate.__exit__',
+              'restore-on-every-exit', ex,
+              'every path through __exit__ re-installs the saved profile',
+              'a path through __exit__ does not re-install the saved '
+              'profile')
+    swallow = [r for r in ast.walk(ex) if isinstance(r, ast.Return) and
+               r.value is not None and not (
+                   isinstance(r.value, ast.Constant) and
+                   not r.value.value)]
+    col.check(not swallow, rule, ERR, 'errstate.__exit__',
+              'does-not-swallow', swallow[0] if swallow else ex,
+              '__exit__ returns nothing / False',
+              '__exit__ returns `%s`: a truthy value tells Python to '
+              'suppress the exception leaving the block, so a scoped '
+              "'raise' reaction never reaches the caller"
+              % (unparse(swallow[0].value, 50) if swallow else ''))
+
+
 def rule_or_finally(repo, col):
     """In ``errstate`` every path from the ``yield`` to a normal or
     exceptional exit passes through a call that re-installs the profile
     saved before the ``yield``."""
     rule = 'OR-FINALLY'
+    m0 = repo.mod(ERR)
+    if isinstance(m0.defs.get('errstate'), ast.ClassDef):
+        _errstate_class(repo, col, m0.defs['errstate'])
+        return
     f = repo.func(ERR, 'errstate')
     if 'contextmanager' not in [d.split('.')[-1] for d in decorators(f) if d]:
         col.unknown(rule, ERR, 'errstate', 'decorator', f,
